@@ -1528,9 +1528,13 @@ func (p *parser) parseRecoveryExpr(recover *recoveryExpr) (any, bool) {
 
 	// {{ end }} ==template==
 
+	// the builder gives the operands of a recovery operator a label scope of
+	// their own, so the labels they bind must not land in the enclosing scope
+	p.pushV()
 	p.pushRecovery(recover.failureLabel, recover.recoverExpr)
 	val, ok := p.parseExprWrap(recover.expr)
 	p.popRecovery()
+	p.popV()
 
 	return val, ok
 }
